@@ -14,6 +14,10 @@ const U: u32 = 1 << 5; // ADVANCED_UNITS
 const MODES: u32 = 1 << 6;
 const T: u32 = 1 << 10; // TIMER_REQUIRES_TIME
 const I: u32 = (1 << 11) | M; // INTERMEDIATE_PREPARATIONS
+/// pseudo bits: the construct is only invalid in some contexts
+const NEEDS_NO_EARLIER_STEP: u32 = 1 << 30;
+const NEEDS_AT_MOST_ONE_EARLIER_STEP: u32 = 1 << 29;
+const PSEUDO: u32 = NEEDS_NO_EARLIER_STEP | NEEDS_AT_MOST_ONE_EARLIER_STEP;
 
 /// (name, source of the invalid construct, extension bits the check needs)
 const INLINE: &[(&str, &str, u32)] = &[
@@ -62,6 +66,10 @@ const INLINE: &[(&str, &str, u32)] = &[
     ("too large intermediate reference", "@&(99999)zz{}", I),
     ("intermediate reference on cookware", "#&(1)zz{}", I),
     ("intermediate reference with a forbidden modifier", "@-&(9)zz{}", I),
+    // only invalid where the section has fewer earlier steps than the number (text paragraphs do not count)
+    ("relative step reference beyond the steps of the section", "@&(~1)zz{}", I | NEEDS_NO_EARLIER_STEP),
+    ("step reference beyond the steps of the section", "@&(1)zz{}", I | NEEDS_NO_EARLIER_STEP),
+    ("relative step reference two back", "@&(~2)zz{}", I | NEEDS_AT_MOST_ONE_EARLIER_STEP),
     ("timer with a unit that is not time", "~zz{5%kg}", U),
     ("timer with an unknown unit", "~zz{5%foo}", U),
     ("timer with a text value", "~zz{some%min}", U),
@@ -89,6 +97,7 @@ fn contexts() -> Vec<Recipe> {
         Recipe { blocks: vec![Block::Step(vec![c(Comp::new(Kind::Cw, "p"))]), Block::Step(vec![t("Then "), c(Comp::new(Kind::Tm, "").qty(Val::Int(5), Some("min"))), t(" wait")])] },
         Recipe { blocks: vec![Block::Section(Some("S")), Block::Step(vec![t("Use "), c(Comp::new(Kind::Igr, "b c").qty(Val::Frac(1, 2), None))])] },
         Recipe { blocks: vec![Block::Para(vec!["a note"]), Block::Step(vec![c(Comp::new(Kind::Igr, "c").qty(Val::Int(2), None)), t(" alone")]), Block::Step(vec![t("end")])] },
+        Recipe { blocks: vec![Block::Para(vec!["intro"]), Block::Step(vec![t("first")]), Block::Para(vec!["a tip", "on two lines"]), Block::Step(vec![t("Knead the "), c(Comp::new(Kind::Igr, "d")), t(" well")])] },
     ]
 }
 
@@ -171,7 +180,7 @@ pub fn replay(case: &J) -> Vec<Violation> {
 
 pub fn run(tier: Tier) {
     let c = ctx();
-    c.set_rule("soundness: every well-formed model recipe x spelling of the C01 space (both configurations) has no error and no warning other than one deprecation notice whose labels lie on `>>` lines, and is valid; completeness / placement: a catalogue of invalid constructs (one per construct the property lists, 48 in-step and 10 block-level) planted at every item slot of every step of 4 well-formed contexts, in every spelling with <= d deviations, under every extension set that enables the check (all, the minimal set, the minimal set + COMPAT): an Error diagnostic whose first label touches the construct's byte range must exist; on every result: valid <=> output and no error, parse-stage error => no output and only parse-stage diagnostics, otherwise output; non-trivial = well-formed recipes / planted constructs; distinct = distinct sources");
+    c.set_rule("soundness: every well-formed model recipe x spelling of the C01 space (both configurations) has no error and no warning other than one deprecation notice whose labels lie on `>>` lines, and is valid; completeness / placement: a catalogue of invalid constructs (one per construct the property lists, 48 in-step and 10 block-level) planted at every item slot of every step of 5 well-formed contexts, in every spelling with <= d deviations, under every extension set that enables the check (all, the minimal set, the minimal set + COMPAT): an Error diagnostic whose first label touches the construct's byte range must exist; on every result: valid <=> output and no error, parse-stage error => no output and only parse-stage diagnostics, otherwise output; non-trivial = well-formed recipes / planted constructs; distinct = distinct sources");
     let plan = match tier {
         Tier::Quick => Plan { l1_dev: 1, l2_dev: 0, l2_len: 2, l3_dev: 0, l3_len: 3, all_alt: true },
         Tier::Thorough => Plan { l1_dev: 1, l2_dev: 1, l2_len: 3, l3_dev: 1, l3_len: 4, all_alt: true },
@@ -196,13 +205,30 @@ pub fn run(tier: Tier) {
     let slots = Arc::new(slots);
     let dev = tier.pick(1, 2);
     let total = INLINE.len() as u64 * slots.len() as u64;
-    let parsers: Arc<Vec<Vec<CooklangParser>>> = Arc::new(INLINE.iter().map(|e| ext_sets(e.2).into_iter().map(|x| CooklangParser::new(x, Converter::bundled())).collect()).collect());
+    let parsers: Arc<Vec<Vec<CooklangParser>>> = Arc::new(INLINE.iter().map(|e| ext_sets(e.2 & !PSEUDO).into_iter().map(|x| CooklangParser::new(x, Converter::bundled())).collect()).collect());
     let (sl, cx) = (slots.clone(), ctxs.clone());
     let ns = slots.len() as u64;
     sweep(&format!("C07 planted constructs: {} constructs x {} slots x spellings with <= {dev} deviations x enabling extension sets", INLINE.len(), slots.len()), total, move |i| json!({"kind": "planted-model", "construct": INLINE[(i / ns) as usize].0, "slot": format!("{:?}", sl[(i % ns) as usize])}), |idx, local| {
         let (name, raw, bits) = INLINE[(idx / ns) as usize];
         let (ci, bi, pos) = slots[(idx % ns) as usize];
         let mut r = cx[ci].clone();
+        if bits & PSEUDO != 0 {
+            // steps before this block in the same section
+            let mut earlier = 0;
+            for b in &r.blocks[..bi] {
+                match b {
+                    Block::Section(_) => earlier = 0,
+                    Block::Step(_) => earlier += 1,
+                    _ => {}
+                }
+            }
+            let limit = if bits & NEEDS_NO_EARLIER_STEP != 0 { 0 } else { 1 };
+            if earlier > limit {
+                local.outcome("construct is valid in this context (skipped)");
+                return vec![];
+            }
+        }
+        let bits = bits & !PSEUDO;
         if let Block::Step(items) = &mut r.blocks[bi] {
             items.splice(pos..pos, [Item::Text(" "), Item::Raw(raw), Item::Text(" ")]);
         }
